@@ -64,7 +64,7 @@ def jobs(tier, seed):
     return out
 
 
-def check_span(ctx, comp, label, where):
+def check_span(ctx, comp, label, where, inherited_e=False):
     """duration(comp) == max end - min start over the operations comp lists."""
     ops = comp.decomposed_operations()
     dur = comp.duration
@@ -85,7 +85,8 @@ def check_span(ctx, comp, label, where):
     node_span = cm.smax([k.end_time for k in kids]) - cm.smin([k.start_time for k in kids])
     ctx.check('C04.span', dur == span, {'where': where, 'reported': dur, 'span': span, 'starts': starts, 'ends': ends,
                                          'fingerprint': 'duration_ne_span', 'early_inner_op_in_nested_block': s_or(*early),
-                                         'reported_equals_node_level_span': dur == node_span})
+                                         'reported_equals_node_level_span': dur == node_span,
+                                         'inherited_joined_end_in_listing': inherited_e})
 
 
 def run(ctx, params):
@@ -95,11 +96,16 @@ def run(ctx, params):
     for o in ops:
         ctx.observe('start', o.start_time)
         ctx.observe('end', o.end_time)
-    check_span(ctx, circuit.circuit_structure, 'top', 'circuit')
+    # fingerprint of known finding F4b (see C01): an operation that was given no relation carries a JOINED_END link handed
+    # down from its enclosing sub-circuit, so it is misplaced relative to that sub-circuit
+    from qce_circuit.structure.intrf_circuit_operation import RelationType
+    inherited_e = any(n.rel is None and n.obj.relation_link.reference_node is not None
+                      and n.obj.relation_link.relation_type == RelationType.JOINED_END for n in built.all_nodes)
+    check_span(ctx, circuit.circuit_structure, 'top', 'circuit', inherited_e)
     ctx.check('C04.top_duration_api', circuit.duration == circuit.circuit_structure.duration)
     for n in built.all_nodes:
         if n.is_sub:
-            check_span(ctx, n.obj, n.label(), f'sub-circuit {n.label()}')
+            check_span(ctx, n.obj, n.label(), f'sub-circuit {n.label()}', inherited_e)
     # consequence clause: whatever is scheduled FOLLOWED_BY a block starts after all of the block's operations ended,
     # provided no contained operation starts before the block's first operations
     def followers(nodes):
@@ -123,7 +129,8 @@ def run(ctx, params):
                 mine = n.obj.start_time
                 concl = s_and(*[mine >= o.end_time for o in inner])
                 ctx.check('C04.followers', s_implies(guard, concl), {'follower': n.label(), 'block': blk.label(), 'start': mine,
-                                                                    'ends': [o.end_time for o in inner], 'fingerprint': 'follower_before_block_end'})
+                                                                    'ends': [o.end_time for o in inner], 'fingerprint': 'follower_before_block_end',
+                                                                    'inherited_joined_end_in_listing': inherited_e})
         for n in nodes:
             if n.is_sub:
                 followers(n.children)
